@@ -3,13 +3,23 @@
    (c09 <statement> ((<prio|inf> (<advertised source>*))*))
        → (ok <(some i)|none> (<covers_i>*) (<resolves_i>*))
      i = construction index of the feed `Importer.match` returns (none = MissingError); per feed of the pool (in
-     construction order) whether its matcher accepts the statement and whether its parser resolves all sources
+     construction order) whether its matcher accepts the statement and whether its parser resolvesSkeleton all sources
    (c09seq (<statement>*) <pool>) → (ok (<(some i)|none>*))
      the answers of ONE importer instance to the request history (`matchSeq`, with the lru_cache state)
+   (c09conf <statement> (<member>*) single|multi)
+       member = (inst (<src>*)) | (conf <ref> none|((<key> <val>)*) (<src>*)) | (name <ref> none|(…) (<src>*)) (single only:
+                the member is handed to io.Importer as its reference string),  val = (num h) | (text s) | (table ((<key> (num h)|(text s))*))
+       → (ok <sel> (<report>*))   sel = (some i) | none | (err <class>) (pool construction failed: MissingError/ValueError/TypeError)
+         report = inst | (desc <provider> <priority in halves> ((<key> <val>)*)) | (err <class>)
+     the pool is built the way the platform builds it: every `conf` member is a `[FEED.<ref>]` section resolved by
+     `setup.Feed(ref)` (single) or all of them by `setup.Feed.resolve([refs])` (multi: `Importer(*instances, *resolved)`)
    every line may be wrapped as (let ((x sexp) …) body), `$x` atoms are substituted. -/
 import ForML.Model.Sexp
 import ForML.Model.Dsl
 import ForML.Model.Matcher
+import ForML.Model.MatcherConf
+import ForML.Model.MatcherParser
+import ForML.Model.MatcherParserFree
 open ForML ForML.Dsl ForML.Matcher
 
 def stepC09 (line : Sexp) : Sexp :=
@@ -23,7 +33,8 @@ def stepC09 (line : Sexp) : Sexp :=
         .list [.atom "ok",
           Sexp.ofOption Sexp.ofNat (select pool s),
           .list (pool.map (fun f => Sexp.ofBool (covers f.sources s))),
-          .list (pool.map (fun f => Sexp.ofBool (resolves f.sources s)))]
+          .list (pool.map (fun f => Sexp.ofBool (resolvesSkeleton f.sources s))),
+          .list (pool.map (fun f => freeParse f.sources s))]
       | _, _ => .atom "bad-op"
     | .list [.atom "c09seq", .list stmts, .list slots] =>
       match stmts.mapM Source.ofSexp, slots.mapM Slot.ofSexp with
@@ -32,6 +43,36 @@ def stepC09 (line : Sexp) : Sexp :=
           match r with
           | .ok i => Sexp.ofOption Sexp.ofNat (some i)
           | .error _ => Sexp.ofOption Sexp.ofNat none))]
+      | _, _ => .atom "bad-op"
+    | .list [.atom "c09conf", stmt, .list ms, .atom route] =>
+      match Source.ofSexp stmt, ms.mapM Arg.ofSexp with
+      | some s, some args =>
+        let err (e : ConfErr) : Sexp := .list [.atom "err", .atom e.wire]
+        let members := args.map Arg.toMember
+        let sel : Option Sexp :=
+          match route with
+          | "single" =>
+            some (match matchArgs args s with
+              | .error e => err e
+              | .ok (.ok i) => Sexp.ofOption Sexp.ofNat (some i)
+              | .ok (.error _) => Sexp.ofOption Sexp.ofNat none)
+          | "multi" =>
+            if args.all (fun a => match a with | .member _ => true | _ => false) then
+              some (match selectMulti members s with
+                | .error e => err e
+                | .ok r => Sexp.ofOption Sexp.ofNat r)
+            else none
+          | _ => none
+        match sel with
+        | none => .atom "bad-op"
+        | some sel =>
+          .list [.atom "ok", sel, .list (members.map (fun m =>
+            match m with
+            | .inst _ => .atom "inst"
+            | .conf ref sec _ =>
+              match descriptorOf ref sec with
+              | .error e => err e
+              | .ok d => .list [.atom "desc", .atom d.reference, Sexp.ofInt d.priority, optionsToSexp d.params]))]
       | _, _ => .atom "bad-op"
     | _ => .atom "bad-op"
 
